@@ -78,7 +78,8 @@ def pair_rows(blk, pa, pb, rows):
 def operand_pairs(rng, tier):
     pairs = []
     exps = [1, 2, 64, 100, 126, 127, 128, 129, 150, 200, 253, 254]
-    gaps = list(range(0, 81)) if tier == 'thorough' else [0, 1, 2, 3, 8, 22, 23, 24, 25, 26, 31, 32, 33, 40, 64]
+    gaps = (list(range(0, 81)) + [100, 127, 128, 129, 200, 232, 233, 240, 252, 253]) if tier == 'thorough' else \
+        [0, 1, 2, 3, 8, 22, 23, 24, 25, 26, 31, 32, 33, 40, 64, 128, 129, 233, 253]
     ms = MANTS if tier == 'thorough' else MANTS[:6]
     for g in gaps:
         for e1 in ([127, 150, 254, 100] if tier == 'quick' else exps):
@@ -125,7 +126,7 @@ def conv_rows(blk, rng, tier, rows):
         blk.run(v)
         rows.append({'op': 'inttofp', 'a': limbs(v), 'r': fields(blk.if_[0].get()), 'plost': blk.if_[1].get()})
     fvals = set()
-    for e in list(range(100, 162)) + [1, 60, 200, 254]:
+    for e in list(range(100, 162)) + [1, 2, 60, 94, 95, 96, 200, 254]:
         for m in MANTS + [rng.randrange(1 << 23) for _ in range(3 if tier == 'quick' else 30)]:
             for s in (0, 1):
                 fvals.add(pack(s, e, m))
